@@ -15,13 +15,14 @@ CVC5_TIMEOUT_S = int(os.environ.get('PYVC_CVC5_TIMEOUT_S', '60'))
 
 class Obl(object):
     """one proof obligation: under the path condition of `st`, `clause` must hold"""
-    def __init__(self, name, prop, st, clause, oc=None, finding=None, expect_refuted=False, z3_timeout_ms=None):
+    def __init__(self, name, prop, st, clause, oc=None, finding=None, expect_refuted=False, z3_timeout_ms=None, exploratory=False):
         self.name, self.st, self.clause, self.oc = name, st, clause, oc
         self.props = (prop,) if isinstance(prop, str) else tuple(prop)     # an obligation can carry several properties (first = primary)
         self.prop = self.props[0]
         self.finding = finding              # id in known_findings.json this obligation is the witness of (expected to be refuted)
         self.expect_refuted = expect_refuted
         self.z3_timeout_ms = z3_timeout_ms      # string-heavy obligations: give up on z3 early and let cvc5 decide
+        self.exploratory = exploratory          # thorough-tier analysis: an undecided answer is reported but does not make the check undecided
 
 
 def cls_name(m, c):
@@ -82,7 +83,7 @@ def discharge(o, model_vars=None):
     so.push(); so.add(z3.Not(o.clause))
     r = so.check()
     res = {'name': o.name, 'prop': o.prop, 'time': 0, 'backend': 'z3', 'finding': o.finding,
-           'expect_refuted': o.expect_refuted}
+           'expect_refuted': o.expect_refuted, 'exploratory': getattr(o, 'exploratory', False)}
     if r == z3.unsat:
         res['verdict'] = 'valid'
     elif r == z3.sat:
@@ -109,6 +110,8 @@ def discharge(o, model_vars=None):
         # z3 gave up: hand the same query to cvc5 (strings / sequences are often decided there)
         try:
             from . import smt
+            if getattr(o, 'exploratory', False):
+                raise RuntimeError('exploratory obligation: no second solver')
             ans = smt.run_cvc5('(set-logic ALL)\n' + so.to_smt2(), CVC5_TIMEOUT_S)
             if ans == 'unsat':
                 res['verdict'] = 'valid'; res['backend'] = 'cvc5'; res.pop('reason', None)
